@@ -234,4 +234,47 @@ theorem app_export_exact (H : Crypto.Prims) (P : Prims) (L : SealLaws P) (kl : L
   refine ⟨fs, hfs, ?_⟩
   rw [Props.C06.reassemble_build _ _ hfs, h2, dirBytes_entries false ts evs _ h1, dirBytes_entries true ts evs _ h1]
 
+-- ====================================================================== B. connection level (`Pipeline.connOut`)
+/-- the records of connection `c` in the order `Session` handles them (reassembly of both directions, packet by packet) -/
+def connRecs (info : Nat → Pipeline.Info) (c : Pipeline.Conn) : List (Session.Rec × Bool) :=
+  released info c.server (Reassembly.St.init, Reassembly.St.init) c.pkts
+
+/-- `Session.decrypt()` factors as: reassembly (independent of key log and options) → ONE `Session.run` from the
+    initial state → `OutputBuilder.build` → addressing. Everything `Props/C03, C07Session, C08Session, C13Session` prove
+    about `Session.run` for every `Ops` therefore holds for the session inside `connOut`. -/
+theorem connOut_eq (H : Crypto.Prims) (P : Prims) (info : Nat → Pipeline.Info) (c : Pipeline.Conn)
+    (kl : List Keylog.Key) :
+    Pipeline.connOut H P info c kl =
+      (TcpOut.build ((Session.run (Pipeline.ops H P kl) c.opts.metadata Session.St.init (connRecs info c)).traffic.map
+        (toRec fun id => (info id).ts))).map fun fs => fs.map (Pipeline.addressed c.opts c) := by
+  unfold Pipeline.connOut connRecs
+  simp only [feed_eq_run]
+  rfl
+
+/-- B3 — for EVERY primitives, key log and packet list: no exception escapes the session part of `Session.decrypt()`
+    (instance of `Props.C03.run_never_raises`), every record reassembly releases has at least one carrier packet (also
+    when empty-payload packets reach the session), hence `OutputBuilder.build` never divides by zero / indexes an empty
+    list: `connOut` is never `none`. -/
+theorem connOut_never_raises (H : Crypto.Prims) (P : Prims) (info : Nat → Pipeline.Info) (c : Pipeline.Conn)
+    (kl : List Keylog.Key) :
+    Session.runRaw (Pipeline.ops H P kl) c.opts.metadata Session.St.init (connRecs info c)
+      = .ok (Session.run (Pipeline.ops H P kl) c.opts.metadata Session.St.init (connRecs info c)) ∧
+    (∀ r ∈ connRecs info c, r.1.carriers ≠ []) ∧
+    (Pipeline.connOut H P info c kl).isSome := by
+  refine ⟨Props.C03.run_never_raises _ _ _ _, released_carriers _ _ _ _, ?_⟩
+  rw [connOut_eq, Option.isSome_map]
+  apply Props.C06.build_total
+  intro r hr
+  obtain ⟨e, he, rfl⟩ := List.mem_map.mp hr
+  have := released_carriers info c.server _ c.pkts _ (Props.C07.entry_origin _ _ _ e he)
+  simpa [toRec] using this
+
+/-- … and the only way `connOut` could be `none` is `OutputBuilder.build` raising -/
+theorem connOut_none_iff_build_none (H : Crypto.Prims) (P : Prims) (info : Nat → Pipeline.Info) (c : Pipeline.Conn)
+    (kl : List Keylog.Key) :
+    Pipeline.connOut H P info c kl = none ↔
+      TcpOut.build ((Session.run (Pipeline.ops H P kl) c.opts.metadata Session.St.init (connRecs info c)).traffic.map
+        (toRec fun id => (info id).ts)) = none := by
+  rw [connOut_eq, Option.map_eq_none_iff]
+
 end TLX.Props.C01Pipeline
